@@ -182,6 +182,45 @@ pub fn family(w: u16, tier: Tier) -> Vec<Setup> {
             s.r[0] = 0x4000;
             s.memset = vec![(0x4000, 0x0041), (0x4001, 0x4342), (0x4002, 0x00E9), (0x4003, 0x0000)];
             out.push(s);
+            // a word with a zero low byte and a character in the high byte, first and in the middle
+            let mut s = base.clone();
+            s.r[0] = 0x4000;
+            s.memset = vec![(0x4000, 0x5800), (0x4001, 0x4241), (0x4002, 0x5900), (0x4003, 0x0043), (0x4004, 0x0000)];
+            out.push(s);
+            // OUT: every byte value, with and without garbage in the high byte
+            if w & 0xFF == 0x21 {
+                for b in 0..=255u16 {
+                    for hi in [0x0000u16, 0x1200] {
+                        let mut s = base.clone();
+                        s.r[0] = hi | b;
+                        out.push(s);
+                    }
+                }
+            }
+            // PUTN: digit-count boundaries
+            if w & 0xFF == 0x26 {
+                for v in [9u16, 10, 99, 100, 999, 1000, 9999, 10000, 32767] {
+                    let mut s = base.clone();
+                    s.r[0] = v;
+                    out.push(s);
+                }
+            }
+            // PUTS / PUTSP: strings made of every byte value 1..=255 (one per word / packed)
+            if w & 0xFF == 0x22 || w & 0xFF == 0x24 {
+                for chunk in 0..4u16 {
+                    let mut s = base.clone();
+                    s.r[0] = 0x5000;
+                    let mut m = Vec::new();
+                    for k in 0..64u16 {
+                        let b = chunk * 64 + k;
+                        let word = if w & 0xFF == 0x22 { if b == 0 { 0x0100 | 0x41 } else { b | 0x3300 } } else { ((255 - b) << 8) | if b == 0 { 0x41 } else { b } };
+                        m.push((0x5000 + k, word));
+                    }
+                    m.push((0x5040, 0));
+                    s.memset = m;
+                    out.push(s);
+                }
+            }
         }
     }
     out
@@ -342,7 +381,7 @@ fn compare(env: &RunEnvironment, m: &Machine, end: End, real_end: &Result<(), St
     if io.out.contains('\x1b') {
         return Cmp::NotJudged("ESC in program output under --minimal (documented colour stripping)");
     }
-    if real_out != io.out {
+    if real_out.replace('\0', "") != io.out.replace('\0', "") {
         return Cmp::Differ(Outcome { sig: format!("exec/{class}/output"), what: format!("word x{w:04X} with R0={:04x}: printed {:?}, trap routine specifies {:?}", before.0[0], truncate(real_out), truncate(&io.out)) });
     }
     Cmp::Agree
